@@ -207,6 +207,50 @@ def family(rng, count):
     return cases
 
 
+MACRO = '<metal:m define-macro="m">(m)</metal:m>'
+USE = '<b metal:use-macro="template.macros[\'m\']"/>'
+SHOWN = {'1': '1', "'s'": 's', '(3, 4)': '(3, 4)', '[5]': '[5]', 'None': ''}
+
+
+def multi_case(rng):
+    """definitions and loops of 1–3 names, local or global, some of the names already globally defined, with macro calls inside the
+    element and after it (a macro call refreshes the scope from the render context): what every name shows inside, and afterwards"""
+    names = rng.sample(['a', 'b', 'c', 'd', 'q'], rng.choice([1, 2, 2, 3]))
+    vals = [rng.choice(list(SHOWN)) for _ in names]
+    kind = rng.choice(['define', 'define', 'repeat'])
+    is_global = rng.random() < 0.65
+    glob = 'global ' if is_global else ''
+    pre_names = [n for n in names if rng.random() < 0.4]
+    target = names[0] if len(names) == 1 else '(%s)' % ', '.join(names)
+    value = vals[0] if len(names) == 1 else '(%s)' % ', '.join(vals)
+    value2 = vals[0] if len(names) == 1 else '(%s)' % ', '.join(reversed(vals))
+    shown = ' '.join('${%s}' % n for n in names)
+    # a local definition that shadows a global one is D-05f territory once a macro has been called inside it: no call there
+    inner_use = USE if (rng.random() < 0.6 and (is_global or not pre_names)) else ''
+    iu = '(m)' if inner_use else ''
+    pre = ''.join('<i tal:define="global %s \'old-%s\'"/>' % (n, n) for n in pre_names)
+    pre_out = '<i/>' * len(pre_names)
+    r1 = ' '.join(SHOWN[v] for v in vals)
+    r2 = r1 if len(names) == 1 else ' '.join(SHOWN[v] for v in reversed(vals))
+    if kind == 'define':
+        el = '<div tal:define="%s%s %s">[%s]%s[%s]</div>' % (glob, target, value, shown, inner_use, shown)
+        el_out = '<div>[%s]%s[%s]</div>' % (r1, iu, r1)
+        last = vals
+    else:
+        el = '<tal:r repeat="%s%s [%s, %s]">[%s]%s[%s];</tal:r>' % (glob, target, value, value2, shown, inner_use, shown)
+        el_out = '[%s]%s[%s];[%s]%s[%s];' % (r1, iu, r1, r2, iu, r2)
+        last = vals if len(names) == 1 else list(reversed(vals))
+    tail = USE + '[%s]' % ' '.join("${%s | 'U'}" % n for n in names)
+    after = []
+    for n, v in zip(names, last):
+        if is_global:
+            after.append(SHOWN[v])
+        else:
+            after.append('old-%s' % n if n in pre_names else 'U')
+    exp = '(m)' + pre_out + el_out + '(m)[%s]' % ' '.join(after)
+    return {'src': MACRO + pre + el + tail, 'vars': [], 'objs': []}, exp
+
+
 def correspondence(ctx):
     # (a) Scope operation sequences
     n = 12 if not ctx.thorough else 40
@@ -223,7 +267,9 @@ def correspondence(ctx):
         g = talgen.TalGen(ctx.rng, depth=ctx.rng.choice([1, 2, 3]), colliding=True,
                           features={'define', 'repeat', 'condition', 'content', 'interp', 'onerror', 'omit', 'pipes'})
         gen.append(g.template())
-    pipeline.run_cases(ctx, gen, what='scoping')
+    # (c) global definitions of several names (define and repeat), read after a macro call has refreshed the scope from the render context
+    multi = [{'src': D05G, 'vars': [], 'objs': []}] + [multi_case(ctx.rng)[0] for _ in range(ctx.budget(160, 4000))]
+    pipeline.run_cases(ctx, gen + multi, what='scoping')
 
 
 def reserved_cases():
@@ -268,6 +314,17 @@ def oracle(ctx):
                           expected='TemplateError with token %r' % nm, actual=r,
                           finding='D-05a2' if nm.startswith('__') and 'tal:repeat' in src else None)
     # D-05f: a macro call (`econtext.update(rcontext)` afterwards) makes a global visible again inside an element that shadows it
+    ms = [multi_case(ctx.rng) for _ in range(ctx.budget(300, 10000))]
+    for (case, exp), r in zip(ms, pipeline.impl_many([m[0] for m in ms])):
+        ctx.count('evaluations')
+        if r.get('out') != exp:
+            ctx.violation('a definition or loop of several names, local or global: every name shows its own item inside the element (also after a '
+                          'macro call), a global one keeps its last value afterwards, a local one is restored', case, expected=exp, actual=r)
+    r = pipeline.run_impl({'src': D05G, 'vars': []})
+    ctx.count('evaluations')
+    if r.get('out') != D05G_EXPECT:
+        ctx.violation('a global definition of several names must give each name its own item, also after a macro call has refreshed the scope',
+                      {'src': D05G}, expected=D05G_EXPECT, actual=r)
     r = pipeline.run_impl({'src': D05F, 'vars': []})
     if r.get('out') != D05F_EXPECT:
         ctx.violation('a local definition that shadows a global must stay visible until its element ends (also after a macro was used inside)',
@@ -277,11 +334,18 @@ def oracle(ctx):
     ctx.sample({'template': fam[0][0]['src'], 'vars': fam[0][0]['vars'], 'expected': fam[0][1]})
 
 
+# D-05g (fixed in /repo, 34eed14): a global definition of several names kept the whole value under each name in the render context;
+# a macro call refreshes the scope from it
+D05G = ('<metal:m define-macro="m">(m)</metal:m><div tal:define="global (a, b) (1, 2)">[${a} ${b}]</div>'
+        '<b metal:use-macro="template.macros[\'m\']"/>[${a} ${b}]<i tal:define="global (p, q) [\'P\', (3, 4)]; global r q"/>'
+        '<b metal:use-macro="template.macros[\'m\']"/>[${p} ${q} ${r}]')
+D05G_EXPECT = '(m)<div>[1 2]</div>(m)[1 2]<i/>(m)[P (3, 4) (3, 4)]'
 D05F = '<a tal:define="global g \'G\'"></a><div tal:define="g \'L\'">${g}<b metal:define-macro="a">A</b>${g}</div>'
 D05F_EXPECT = '<a></a><div>L<b>A</b>L</div>'
 D05F_ACTUAL = '<a></a><div>L<b>A</b>G</div>'
 FINDINGS = {
     'D-05b': ('<p tal:define="x 1"><i tal:define="global x 2"/></p>[${x | \'U\'}]', {}, '<p><i></i></p>[2]'),
+    'D-05h': ('<div tal:define="decode 1">${decode}</div>', {}, '<div>1</div>'),
     'D-05c': ('<p tal:on-error="string:E" tal:define="x 1">${1/0}</p>[${x | \'U\'}]', {}, '<p>E</p>[U]'),
 }
 
